@@ -76,7 +76,7 @@ def run(ck, prog, ctx):
                 c = ai.class_at(b, site["pos"], site["arg"])
                 ok = c == absint.P or c is None
                 ck.ob("GUARD", key, ok, "%s: ln argument %s" % (oshort, "proven positive" if ok else "not proven positive (class %s)" % c), where=b.where(site["line"]))
-    ck.floor("GUARD", "float divisions in similarity/defaults.rs", n_div, 7)
+    ck.floor("GUARD", "float divisions in similarity/defaults.rs", n_div, 3)
 
     # ------------------------------------------------------------------ IDENT: identical terms score 1
     pvl = Prov(prog, inline=False, bind_closures=False)
@@ -288,6 +288,22 @@ def run(ck, prog, ctx):
                 if len(names) == 1 and gk:
                     return S("sumIC(%s)" % next(iter(names)))
                 return None
+            # a crate-local helper (e.g. `term_ic(term, kind)`, `summed_ic(terms, kind)`): classified by the inlined provenance of
+            # its result - an IC lookup of exactly one of the two terms, or a sum of IC lookups over one ancestor accessor
+            tgh = prog.bodies.get(c.res) if c.res else None
+            if tgh is not None and tgh.file == FILE and t.dest is not None and t.dest.is_local():
+                at = pv.of_local(body, t.dest.local)
+                names = {a[1].rsplit("::", 1)[-1] for a in at if a[0] == "call"}
+                arith = [a for a in at if a[0] == "op" and a[1] in ("Add", "Sub", "Mul", "Div")]
+                if "get_kind" in names and "information_content" in names and not arith:
+                    if "sum" in names:
+                        anc = {re.search(ANC, a[1]).group(1) for a in at if a[0] == "call" and re.search(ANC, a[1]) and (a[3].startswith("similarity::defaults") or a[3].startswith("<similarity::defaults"))}
+                        if len(anc) == 1:
+                            return S("sumIC(%s)" % next(iter(anc)))
+                    else:
+                        ps = params_of(at, root.id) & {2, 3}
+                        if len(ps) == 1:
+                            return S("IC(a)" if ps == {2} else "IC(b)")
         if kind == "param" and body.kind == "Closure" and obj[0] == 2:
             return S("n")
         return None
@@ -324,10 +340,10 @@ def run(ck, prog, ctx):
         for i, (ln, e) in enumerate(nonconst):
             eq = expr_equal(e, want)
             key = name if i == 0 else "%s/%d" % (name, i)
+            n_formula += 1
             if eq is None:
                 ck.undecided("FORMULA", key, "%s: result expression %s has leaves that are not recognised (%s)" % (name, show(e), "; ".join(unknowns(e)[:2])), where=fb.where(ln))
             else:
-                n_formula += 1
                 ck.ob("FORMULA", key, eq, "%s returns %s %s the documented %s" % (name, show(e), "=" if eq else "which is NOT algebraically equal to", text), where=fb.where(ln))
     dc = None
     db = prog.body(IMPL % "Distance")
@@ -341,17 +357,17 @@ def run(ck, prog, ctx):
                     continue
                 eq = expr_equal(e, div(one, add(S("n"), one)))
                 done = True
+                n_formula += 1
                 if eq is None:
                     ck.undecided("FORMULA", "Distance", "result expression %s not recognised" % show(e), where=fb.where(d.line))
                 else:
-                    n_formula += 1
                     ck.ob("FORMULA", "Distance", eq, "Distance maps a distance of n steps to %s %s the documented 1/(n+1)" % (show(e), "=" if eq else "which is NOT"), where=fb.where(d.line))
         if not done:
             ck.undecided("FORMULA", "Distance", "the mapping from distance to score is not a closure over the distance", where=db.where())
         srcs = [t for _, t in db.calls() if re.search(r"HpoTerm::<'.*>::distance_to_term$", t.callee.res or "")]
         ok = bool(srcs) and all(sorted(map(sorted, [params_of(pv.of_operand(db, a), db.id) for a in t.args[:2]])) == [[2], [3]] for t in srcs)
         ck.ob("FORMULA", "Distance/source", ok, "Distance scores distance_to_term(a, b)" if ok else "Distance does not score distance_to_term of its two arguments", where=db.where())
-    ck.floor("FORMULA", "formula instances decided", n_formula, 6)
+    ck.floor("FORMULA", "formula instances examined (decided or undecided)", n_formula, 4)
 
     # ------------------------------------------------------------------ KIND: the information-content kind is the one the measure was constructed with
     n_kind = 0
@@ -369,6 +385,13 @@ def run(ck, prog, ctx):
                 ka = t.args[1]
             elif re.search(r"^similarity::defaults::(Resnik|Lin|Jc|GraphIc|Relevance|InformationCoefficient|Mutation)::new$", r) and len(t.args) == 1:
                 ka = t.args[0]
+            else:
+                # a private helper of this file that takes the kind as a parameter
+                tgk = prog.bodies.get(r)
+                if tgk is not None and tgk.file == FILE and tgk.kind == "Fn":
+                    for i_, a_ in enumerate(t.args):
+                        if i_ + 1 <= tgk.nargs and "InformationContentKind" in tgk.locals[i_ + 1]["s"]:
+                            ka = a_
             if ka is None:
                 continue
             n_kind += 1
@@ -378,7 +401,7 @@ def run(ck, prog, ctx):
             consts = [a for a in at if a[0] == "const" or (a[0] == "op" and False)]
             variants = [st for _, st in b.stmts() if st.k == "assign" and st.rv["k"] == "agg" and (st.rv.get("adt") or "").endswith("InformationContentKind")]
             ck.ob("KIND", "kind-of-measure/%s/%d" % (root.short, kcnt[root.short]), from_self and not variants, "%s passes %s to %s" % (root.short, "its own `kind`" if from_self and not variants else "a kind that is not (only) the one it was constructed with", r.rsplit("::", 2)[-2] + "::" + r.rsplit("::", 1)[-1]), where=b.where(t.line))
-    ck.floor("KIND", "kind arguments in the measures", n_kind, 10)
+    ck.floor("KIND", "kind arguments in the measures", n_kind, 5)
 
     # ------------------------------------------------------------------ KIND K1: Mutation helpers
     n = 0
@@ -413,3 +436,8 @@ def run(ck, prog, ctx):
                             if k != vname:
                                 bad.append((k, t))
                 ck.ob("KIND", "K2/Mutation::calculate/" + vname, not bad, "arm %s of Mutation::calculate %s" % (vname, "uses only its own kind" if not bad else "calls %s" % bad[0][1].callee.def_args), where=mc.where(sw["line"]))
+
+    # ---- constructors: a field named like a parameter is initialised from that parameter, not from a sibling of the same type
+    ck.rule("CTOR", "in a struct literal, the field `f` of a function with a parameter `f` derives from that parameter (DESIGN 3.9)")
+    from engines import check_ctors
+    check_ctors(ck, "CTOR", prog, r"^src/similarity/defaults\.rs$", floor=3)
